@@ -247,8 +247,8 @@ func genC02(t *rapid.T) c02Case {
 			e.Serial = &v
 		case 2:
 			if i == 0 && rapid.IntRange(0, 5).Draw(t, l+"-hugeserial") == 0 {
-				// beyond int64: may be refused, but must never yield a negative or different serial
-				e.SerialRaw = rapid.SampledFrom([]string{"9223372036854775808", "18446744073709551615", "18446744073709551616", "13835058055282163712", "340282366920938463463374607431768211455"}).Draw(t, l+"-hugev")
+				// beyond int64 or negative: may be refused, but must never yield a negative or different serial
+				e.SerialRaw = rapid.SampledFrom([]string{"9223372036854775808", "18446744073709551615", "18446744073709551616", "13835058055282163712", "340282366920938463463374607431768211455", "-1", "-128", "-9223372036854775808"}).Draw(t, l+"-hugev")
 			}
 		}
 		if rapid.IntRange(0, 2).Draw(t, l+"-iuid") == 0 {
